@@ -122,6 +122,7 @@ func (ts *treeStorage) Remove(id TreeID) {
 		// other distant node instances of the protocol could ask for the tree even
 		// after we're done locally and then it needs to be kept around for some time
 		case <-timer.C:
+			verifPoint("ts.fired", id)
 			ts.Lock()
 			// the removal may have been cancelled (or cancelled and scheduled
 			// again) while this routine was waiting for the lock
